@@ -510,4 +510,7 @@ def run(ctx, report):
     c07.run(ctx, Only(report, {"ONCE": "ERRKIND"}, keys=lambda r, k: k.endswith("swallows-error")))
     # the pairs of the map model are what iter() yields
     api.readers_rule(ctx, Only(report, {"READ": "READ"}, keys=lambda r, k: k == "iter"))
+    # "plus ... the signer's public key": under the key name of the signer's own scheme (CombinedPublicKey delegates)
+    from rules import c11
+    c11._own_run(ctx, Only(report, {"DELEG": "DELEG"}))
 
